@@ -431,6 +431,16 @@ def _reduce(I, a, dim, keepdim, kind):
             else:
                 out = tlib.ew1(out, cv, dt)
             return Tensor(out)
+        conc = [k for k in axes if a.shape[k].concrete() is not None]
+        symb = [k for k in axes if a.shape[k].concrete() is None]
+        if conc and symb and kind == "sum":
+            # unroll the concrete axes, then one symbolic sum over the remaining ones
+            part = tshape.reduce_concrete(I, a, conc, True, lambda x, y: cv(x) + cv(y), None, dt)[0]
+            out = tsum.reduce_sum(I, part, symb, True)
+            if not keepdim:
+                for k in sorted(axes, reverse=True):
+                    out = tshape.squeeze_axis(out, k)
+            return Tensor(out)
         return Tensor(tsum.reduce_sum(I, a, axes, keepdim, mean=(kind == "mean")))
     if kind in ("min", "max"):
         is_max = kind == "max"
@@ -648,6 +658,13 @@ def t_diag(I, a):
         return z3.If(zint(i) == zint(j), zreal(a.at([idx[0]])), z3.RealVal(0))
 
     return Tensor(STensor([d, d], fn, "real"))
+
+
+def t_narrow(I, t, dim, start, length):
+    a = lift(t)
+    k = tshape.norm_axis(I, dim, a.rank)
+    key = [slice(None)] * k + [slice(start, I.binop(ast.Add(), start, length))]
+    return tshape.getitem(I, t if isinstance(t, Tensor) else Tensor(a), tuple(key))
 
 
 def t_view_as(I, t, other):
@@ -887,6 +904,7 @@ TENSOR_METHODS = {
     "numpy": lambda I, t: NumpyArray(t.val),
     "__len__": lambda I, t: t.val.shape[0].size(),
     "view_as": t_view_as,
+    "narrow": t_narrow,
     "neg": lambda I, t: Tensor(tlib.ew1(t.val, lambda x: -zreal(x), "real")),
     "tanh": lambda I, t: Tensor(tlib.ew1(t.val, lambda x: tlib.tanh_term(zreal(x)), "real")),
 }
@@ -1056,6 +1074,7 @@ def install(I):
         "inf": math.inf,
     }
     I.repo.externals["numpy"] = S("numpy", np_tbl)
-    from . import nnlib
+    from . import nnlib, autograd
 
     nnlib.install(I, torch)
+    torch.table["autograd"].table["grad"] = B("autograd.grad", autograd.grad)
